@@ -1,6 +1,7 @@
 package sim
 
 import (
+	"encoding/json"
 	"fmt"
 	"time"
 )
@@ -171,6 +172,15 @@ func OracleC18(tr *Trace) Verdict {
 					name := ""
 					if lv, ok := DecodeLib(o.Ver.Value); o.Live() && ok {
 						name = lv.ID
+						// (an outside party's record whose id sits under a key that is not exactly "id" - "ID", "Id" -
+						// names a leader for the library's struct decoding (watch events) and none for its map
+						// decoding (periodic check): "the id in the live record" is not defined for it)
+						var m map[string]interface{}
+						if json.Unmarshal(o.Ver.Value, &m) == nil {
+							if exact, _ := m["id"].(string); exact != name {
+								name = ""
+							}
+						}
 					}
 					setName(o.FromT, name)
 					if o.Expired && o.ToT <= s.T {
